@@ -159,7 +159,7 @@ def rand_num(rng):
     kind = rng.random()
     if kind < 0.06:
         return {"c": "0", "e": rng.choice([0, 0, -3, 2])}
-    nd = rng.choice([1, 1, 2, 3, 3, 5, 8, 13, 17, 21, 25, rng.randint(1, 25)])
+    nd = rng.choice([1, 1, 2, 3, 3, 5, 8, 13, 17, 21, 25, rng.randint(1, 25), 29, 40])
     if kind < 0.25:  # straddle a power of ten: 999…9, 1000…0, 1000…1
         k = rng.randint(0, min(nd, 6))
         c = rng.choice([10**nd - 1, 10**nd, 10**nd + 1, 10 ** max(nd - 1, 0)])
@@ -198,6 +198,7 @@ def corpus():
         {"a": P(41, -12, 1), "b": P(1, 0, 0)},         # float double rounding
         {"a": P(1, 0, 24), "b": P(1, 0, -24)},         # sum needs 49 digits
         {"a": P(1234567890123456789012345, 0, 24), "b": P(9876543210987654321098765, 0, -24)},
+        {"a": P(-int("1" * 41), -40, 3), "b": P(1, 0, 0)},   # unary minus / abs rounded to 28 digits
     ]
 
 
